@@ -70,6 +70,43 @@ def step (s : St) (ws : List String) : St × String :=
         (setCur s { t with files := some (fs ++ [f]), length := t.length + l }, "ok")
       | none => (s, "bad-op")
     | _, _, _ => (s, "bad-op")
+  | ["complete", "single", len] =>
+    match cur s, len.toInt? with
+    | some t, some l => (setCur s { t with complete := true, files := none, length := l }, "ok")
+    | _, _ => (s, "bad-op")
+  | ["complete", "multi"] =>
+    match cur s with
+    | some t => (setCur s { t with complete := true, files := some [], length := 0 }, "ok")
+    | none => (s, "bad-op")
+  | ["kill", h] =>
+    match ofHex h with
+    | some h => ({ table := s.table.filter fun t => t.hash != h }, "ok")
+    | none => (s, "bad-op")
+  | ["nfile", h, f] =>
+    match ofHex h, ofHex f with
+    | some h, some f =>
+      (s, match getByHash s.table h with
+        | none => "enoent"
+        | some t => match fileOpen t f, fileAttr t f with
+          | some (o, l), some sz => s!"ok {o} {l} size={sz}"
+          | _, _ => "enoent")
+    | _, _ => (s, "bad-op")
+  | ["ndir", h, d] =>
+    match ofHex h, ofHex d with
+    | some h, some d =>
+      (s, match getByHash s.table h with
+        | none => "enoent"
+        | some t => match dirReadDir t d with
+          | none => "enoent"
+          | some es => showList (es.map showEnt))
+    | _, _ => (s, "bad-op")
+  | ["nlook", h, d, n] =>
+    match ofHex h, ofHex d, ofHex n with
+    | some h, some d, some n =>
+      (s, match getByHash s.table h with
+        | none => "enoent"
+        | some t => showNode (dirLookup t d n))
+    | _, _, _ => (s, "bad-op")
   | "parms" :: comps =>
     match cur s, allHex comps with
     | some t, some p =>
